@@ -205,7 +205,7 @@ func spkAdvs(rt *rapid.T, c *vw.ClusterSpec) {
 
 func genSpkNode(rt *rapid.T, name string, i int) vw.NodeSpec {
 	return vw.NodeSpec{Name: name, Labels: vw.GenLabels(rt, "nlabels"), IPs: []string{fmt.Sprintf("192.168.0.%d", i+1)},
-		Unavailable: rapid.IntRange(0, 7).Draw(rt, "unavail") == 0, Excluded: rapid.IntRange(0, 7).Draw(rt, "excluded") == 0}
+		Unavailable: rapid.IntRange(0, 7).Draw(rt, "unavail") == 0}.WithExcl(vw.GenExcl(rt, 8))
 }
 
 func genSpkCluster(rt *rapid.T) vw.ClusterSpec {
@@ -1019,5 +1019,10 @@ func TestVerifC10Spk(t *testing.T) {
 
 func TestVerifC12Spk(t *testing.T) {
 	vw.Run(t, vw.Options{Property: "C12", Engine: "speaker", Rule: spkRule + "; at every quiescence the layer-2 announcements of the speaker that lived through the history must equal those of freshly started speakers (the choice depends on the eligible nodes and the address only, not on what the speaker announced before); non-trivial = a withdraw-causing event happened", Assumptions: spkAssumptions},
+		genSpkCase, func(c spkCase, tr *vw.Trace) *vw.Violation { return runSpk(c, tr, false, true) })
+}
+
+func TestVerifC04Spk(t *testing.T) {
+	vw.Run(t, vw.Options{Property: "C04", Engine: "speaker", Rule: spkRule + "; at every quiescence the addresses this speaker answers for must equal those of freshly started speakers evaluating the same final view (the single-announcer decision must survive node-condition, label, membership and configuration histories, not only hold as a pure function of a view); non-trivial = a withdraw-causing event happened", Assumptions: spkAssumptions},
 		genSpkCase, func(c spkCase, tr *vw.Trace) *vw.Violation { return runSpk(c, tr, false, true) })
 }
